@@ -252,3 +252,28 @@ func VC01_Coverage() {
 	}
 	vsym.Reach("end")
 }
+
+// VC01_DigestIgnoresHistory: the digest is a function of the image bytes alone: it is the same
+// before and after the process has parsed, listed and re-serialised another (signed) image whose
+// certificate-table alignment bytes are arbitrary.
+func VC01_DigestIgnoresHistory() {
+	b := vsym.Fixture("authenticode/testdata/test.pecoff") // 3825 bytes: not a multiple of 8
+	p0, err := Parse(bytes.NewReader(b))
+	vsym.Assert(err == nil, "fixture parses")
+	d0 := p0.Hash(crypto.SHA256)
+	// another image: the fixture with a 5-byte signature (dwLength 13, three alignment bytes)
+	pa, _ := Parse(bytes.NewReader(b))
+	vsym.Assert(pa.AppendSignature(vsym.BytesN("sig", 5)) == nil, "append")
+	a := pa.Bytes()
+	copy(a[len(a)-3:], vsym.BytesN("alignment", 3))
+	qa, err := Parse(bytes.NewReader(a))
+	vsym.Assert(err == nil, "the signed image parses")
+	qa.Signatures()
+	_ = qa.Bytes()
+	_ = qa.Hash(crypto.SHA256)
+	p1, err := Parse(bytes.NewReader(b))
+	vsym.Assert(err == nil, "fixture parses again")
+	vsym.AssertBytesEq(p1.Hash(crypto.SHA256), d0, "the digest of an image does not depend on images handled earlier")
+	vsym.AssertBytesEq(p0.Hash(crypto.SHA256), d0, "nor does the digest of an object parsed earlier")
+	vsym.Reach("end")
+}
